@@ -30,7 +30,7 @@ import NemoVerif.Lemmas.ErrExtVM
 import NemoVerif.Lemmas.SlideStepVM
 import NemoVerif.Lemmas.ErrHandleVM
 import NemoVerif.Lemmas.ErrReport
-import NemoVerif.Models.ProcessEvents
+import NemoVerif.Lemmas.ProcessEvents
 
 namespace NemoVerif.C10
 open NemoVerif.SlideGraph NemoVerif.ErrContain NemoVerif.RoundMachine
@@ -1333,5 +1333,66 @@ example : ∀ s e, ∃ s', obsRtc generatedTie (fun ev => if ev.isColangError th
 
 /-- non-vacuity of `convert_diverges` -/
 example : ∀ (s : Nat) (ev : Ev), ∃ s' e, (fun (s : Nat) (_ : Ev) => Outcome.raised s 1) s ev = .raised s' e := fun s _ => ⟨s, 1, rfl⟩
+
+
+/-! ### the repaired guard of `_resolve_action_conflicts` (fixes/C10-escaping-statement-errors.diff; model `guardHeads`)
+
+  On the pinned tree the action event of an actionable head is built INSIDE the conflict resolution, outside every try block: an invalid
+  one (`start UtteranceBotAction(script=3)`) raises there, the round is abandoned and every other pending action is lost (open finding
+  error-raised-while-creating-action-event). The repair validates all heads first; these theorems are about that scan. -/
+
+/-- **every head that reaches the conflict resolution has an action event that can be built**: nothing can raise there any more -/
+theorem guardHeads_survivors_valid (build : AHead → Option Nat) (kills : Nat → List Nat) (hself : ∀ f, f ∈ kills f) (heads : List AHead) :
+    ∀ h ∈ (guardHeads build kills heads).1, build h = none := by
+  intro h hm
+  simp only [guardHeads, List.mem_filter] at hm
+  by_cases hb : build h = none
+  · exact hb
+  · have := failInvalid_invalid_stopped build kills hself heads [] [] h hm.1 hb
+    simp [this] at hm
+
+/-- **a faulty flow fails alone**: a head with a valid action event whose flow is not stopped together with any faulty flow keeps its
+    place (and its order) among the heads handed to the conflict resolution — its pending action is not lost -/
+theorem guardHeads_bystander_kept (build : AHead → Option Nat) (kills : Nat → List Nat) (heads : List AHead) (h : AHead) (hm : h ∈ heads)
+    (hun : ∀ g ∈ heads, build g ≠ none → h.flow ∉ kills g.flow) : h ∈ (guardHeads build kills heads).1 := by
+  simp only [guardHeads, List.mem_filter]
+  refine ⟨hm, ?_⟩
+  have : h.flow ∉ (failInvalid build kills heads [] []).1 := by
+    intro hc
+    rcases failInvalid_stopped_origin build kills heads [] [] h.flow hc with h0 | ⟨g, hg, hb, hk⟩
+    · simp at h0
+    · exact hun g hg hb hk
+  simpa using this
+
+/-- no invalid head ⇒ the guard changes nothing (the conflict resolution sees the same heads; no report) -/
+theorem guardHeads_all_valid (build : AHead → Option Nat) (kills : Nat → List Nat) (heads : List AHead) (hv : ∀ h ∈ heads, build h = none) :
+    guardHeads build kills heads = (heads, []) := by
+  have key : ∀ (hs : List AHead) (st er : List Nat), (∀ h ∈ hs, build h = none) → failInvalid build kills hs st er = (st, er) := by
+    intro hs
+    induction hs with
+    | nil => intro st er _; rfl
+    | cons x rest ih =>
+      intro st er hv
+      simp only [failInvalid, hv x List.mem_cons_self]
+      split <;> exact ih st er (fun h hm => hv h (List.mem_cons_of_mem _ hm))
+  simp [guardHeads, key heads [] [] hv]
+
+/-- at most one report per head whose action event cannot be built -/
+theorem guardHeads_reports_le (build : AHead → Option Nat) (kills : Nat → List Nat) (heads : List AHead) :
+    (guardHeads build kills heads).2.length ≤ (heads.filter fun h => (build h).isSome).length := by
+  have := failInvalid_errs_le build kills heads [] []
+  simpa [guardHeads] using this
+
+/-- non-vacuity (kernel-evaluated): the faulty flow 1 (invalid action event, class 7) with its child flow 2, and the bystander flow 3 —
+    the bystander's head survives in place, one report is queued, the faulty flow's and its child's heads are gone -/
+example : guardHeads (fun h => if h.flow = 1 then some 7 else none) (fun f => if f = 1 then [1, 2] else [f]) [⟨10, 3⟩, ⟨11, 1⟩, ⟨12, 2⟩, ⟨13, 3⟩]
+    = ([⟨10, 3⟩, ⟨13, 3⟩], [7]) := by decide
+
+example : ∀ f, f ∈ (fun f => if f = 1 then [1, 2] else [f]) f := by
+  intro f; by_cases h : f = 1 <;> simp [h]
+
+/-- the hypothesis of `guardHeads_bystander_kept` holds of the bystander above -/
+example : ∀ g ∈ [(⟨10, 3⟩ : AHead), ⟨11, 1⟩, ⟨12, 2⟩, ⟨13, 3⟩], (fun h : AHead => if h.flow = 1 then some 7 else none) g ≠ none →
+    (3 : Nat) ∉ (fun f => if f = 1 then [1, 2] else [f]) g.flow := by decide
 
 end NemoVerif.C10.Convert
